@@ -394,7 +394,7 @@ def c08_runs(r, tier: str) -> List[List[dict]]:
     else:
         lengths = [0, 1, 2, 1023, 1024, 1025] + r.sample(lengths, 34)
     for n in lengths:
-        frag = r.choice(["1024", "1024", "byte" if n < 3000 else "1024", "random"])
+        frag = r.choice(["1024", "1024", "byte" if n < 3000 else "1024", "random"]) if n <= 10000 else "1024"
         w = SysWorld(blob_dep(), r, nclients=1, raw_policies=(None, "Never", "Also", "Only"))
         try:
             ok = w.start("fifo", frag)
